@@ -178,10 +178,17 @@ fn link(cfg: &DocCfg) -> BoxedStrategy<Inl> {
     let mut opts: Vec<(u32, BoxedStrategy<Inl>)> = vec![];
     // inline link
     let title_on = cfg.on("link_title");
+    let wrap = cfg.on("break_in_link_text") && cfg.on("softbreak");
     opts.push((
         6,
-        (dest(cfg, false), words(1, 3), opt_if(title_on, 0.15, "[a-z]{1,5}".boxed()))
-            .prop_map(|(d, t, title)| Inl::Link { kind: 0, dest: d, text: t, title })
+        (dest(cfg, false), words(1, 3), opt_if(title_on, 0.15, "[a-z]{1,5}".boxed()), 0u8..6)
+            .prop_map(move |(d, mut t, title, w)| {
+                // a link text wrapped over two lines
+                if wrap && w == 0 && t.len() >= 2 {
+                    t.insert(1, Inl::Soft);
+                }
+                Inl::Link { kind: 0, dest: d, text: t, title }
+            })
             .boxed(),
     ));
     if cfg.on("wiki") {
@@ -410,7 +417,11 @@ fn item_blocks(cfg: &DocCfg, inner: BoxedStrategy<Blk>) -> BoxedStrategy<Vec<Blk
     //   item_first_list, item_first_heading, empty_item: restructurings the properties allow (C07 quantifier)
     // (the lead text of a tight item is not wrapped in a paragraph: a line break inside it is a
     // feature of its own, see KF-TIGHT-ITEM-MULTILINE)
-    let para = inlines(cfg, cfg.on("break_in_item_lead"), 5).prop_map(Blk::Para).boxed();
+    let mut lead_cfg = cfg.clone();
+    if !cfg.on("break_in_item_lead") {
+        lead_cfg.features.off.insert("break_in_link_text".into());
+    }
+    let para = inlines(&lead_cfg, cfg.on("break_in_item_lead"), 5).prop_map(Blk::Para).boxed();
     let mut firsts: Vec<(u32, BoxedStrategy<Blk>)> = vec![(12, para.clone())];
     if cfg.on("item_first_block") {
         firsts.push((
@@ -563,7 +574,10 @@ pub fn doc(cfg: &DocCfg) -> BoxedStrategy<Doc> {
         Just(None).boxed()
     };
     let long_list: BoxedStrategy<Option<Blk>> = if many_lists {
-        let cfg = cfg.clone();
+        let mut cfg = cfg.clone();
+        if !cfg.on("break_in_item_lead") {
+            cfg.features.off.insert("break_in_link_text".into());
+        }
         proptest::option::weighted(
             0.08,
             (any::<bool>(), 9usize..14, any::<bool>()).prop_flat_map(move |(ordered, n, loose)| {
